@@ -319,6 +319,20 @@ def check(pid, tier, seed, args):
             violations.append((full, path, False))
     proof_lost_quiet = [] if (native_fail or not have_standin or args.no_standin) else proof_lost
 
+    selftest = None
+    if tier == 'thorough' and REPO_SRC == '/repo/src' and not os.environ.get('PYVC_NO_SELFTEST'):
+        # mutation self-test of the machinery: every catalogued property-breaking edit, applied to a scratch copy of the
+        # current source, must be reported by this property's quick check (a survivor is a weakness of the contracts, recorded;
+        # it never changes the verdict on /repo)
+        try:
+            sys.path.insert(0, HERE)
+            import selftest as _st
+            rows = _st.run([pid], verbose=False)
+            selftest = {'mutants': len(rows), 'killed': sum(1 for r in rows if r[1] == 'killed'),
+                        'not_killed': [{'name': r[0]['name'], 'status': r[1]} for r in rows if r[1] != 'killed'],
+                        'label': 'mutation self-test on scratch copies (catalogue in mutants.py)'}
+        except Exception as e:
+            selftest = {'error': "%s" % e}
     lem = lemma_check(pid)
     if lem is not None and not lem['ok']:
         errors.append(('lemmas', lem['output'] + ' missing=%s' % lem['missing']))
@@ -373,6 +387,8 @@ def check(pid, tier, seed, args):
     }
     if lem is not None:
         cov['lemmas'] = lem
+    if selftest is not None:
+        cov['mutation_selftest'] = selftest
     if standin:
         cov['standin'] = {k: standin[k] for k in standin if k != 'failures'}
         cov['standin']['label'] = 'bounded, never counted as proved'
